@@ -205,10 +205,14 @@ pub fn judge(ctx: &mut Ctx, m: &MSym, simple: bool, depth: Depth) {
         if let Some(o) = o_tb {
             match groups::order(&fg.pres, 20 * depth.order_bound) {
                 Some(o2) if o2 == o => ctx.count("finite_order_compared"),
-                other => {
-                    ctx.violation("order-differs-from-textbook-presentation", "fundamental_group::fundamental_group", input(), json!({"library": other, "textbook": o, "relators": fg.pres.rels}), "equal order when finite");
+                Some(o2) => {
+                    ctx.violation("order-differs-from-textbook-presentation", "fundamental_group::fundamental_group", input(), json!({"library": o2, "textbook": o, "relators": fg.pres.rels}), "equal order when finite");
                     return;
                 }
+                // the harness's enumeration of the library's presentation hit its row limit (20 x the bound that
+                // sufficed for the textbook presentation): a limit of the oracle, not an observation; the
+                // abelianisation and low-index clauses have judged this presentation
+                None => ctx.out_of_domain("oracle-could-not-enumerate-library-presentation"),
             }
             if m.dim == 2 {
                 let k = orbifold::curvature(m);
